@@ -387,6 +387,59 @@ class Totp(Bundle):
                 raise Viol('%s: a wrong password is accepted for t=%d' % (self.name, t))
         return pos + 1
 
+
+# ------------------------------------------------------------------ botp OCRA: one state, many requests of different lengths
+class Ocra(Bundle):
+    """botpOCRAStart + StepS once, then StepR / StepV with requests of DIFFERENT lengths in every order: each password must
+    equal the one-shot botpOCRARand for the current counter (the counter advances on StepR and on a successful StepV)"""
+    pre = 'botpOCRA'
+    def __init__(self, suite, depth, with_ctr):
+        self.suite, self.depth, self.with_ctr = suite, depth, with_ctr
+        self.name = 'botpOCRA[%s]' % suite
+        import botp as RO
+        self.RO = RO
+        f = RO.ocra_parse(suite)
+        self.digit = f['digit']; qm = f['q_max']
+        self.qs = [D(4, 1), D(qm, 2), D(qm + 1, 3), D(2 * qm, 0), D(5, 3)]       # shortest, one full, composite, longest, short again
+        self.p = D(f['p_len'], 2) if f.get('p_len') else None
+        self.s = D(f['s_len'], 1) if f.get('s_len') else None
+        self.t = 1000003 if f.get('ts') else 0
+        self.ctr0 = b'\xff' * 7 + b'\xfe' if with_ctr else None
+    def start(self, L, A):
+        st = A.buf(self.keep(L), 0xA5)
+        if not L.boolean('botpOCRAStart', st, A.buf(self.suite.encode() + b'\0'), A.buf(KEY), 32):
+            raise Viol('%s: botpOCRAStart refused the suite' % self.name)
+        L.call('botpOCRAStepS', st, A.buf(self.ctr0) if self.ctr0 else None, A.buf(self.p) if self.p else None, A.buf(self.s) if self.s else None)
+        return st
+    def ctr_at(self, k):
+        c = self.ctr0
+        for _ in range(k if c else 0):
+            c = self.RO.ctr_next(c)
+        return c
+    def trans(self, pos):
+        # pos = number of counter advances so far; the search is bounded by the number of calls through the path length
+        return [(k, i) for i in range(len(self.qs)) for k in ('R', 'Vok', 'Vbad')]
+    def apply(self, L, A, st, pos, label, i):
+        adv, calls = pos
+        if calls >= self.depth:
+            return None
+        q = self.qs[i]
+        otp = one(L, 'botp.OCRA', suite=self.suite, key=KEY, q=q, ctr=self.ctr_at(adv), p=self.p, s=self.s, t=self.t)['otp']
+        if label == 'R':
+            o = A.buf(self.digit + 1, 0xEE); L.call('botpOCRAStepR', o, A.buf(q), len(q), self.t, st)
+            got = o.get().split(b'\0')[0].decode()
+            if got != otp:
+                raise Viol('%s: call %d, StepR(|q| = %d) gives %s, one-shot botpOCRARand gives %s' % (self.name, calls + 1, len(q), got, otp))
+            return (adv + 1, calls + 1)
+        if label == 'Vok':
+            if not L.boolean('botpOCRAStepV', A.buf(otp.encode() + b'\0'), A.buf(q), len(q), self.t, st):
+                raise Viol('%s: call %d, the right password for |q| = %d is rejected' % (self.name, calls + 1, len(q)))
+            return (adv + 1, calls + 1)
+        bad = '%0*d' % (self.digit, (int(otp) + 1) % 10 ** self.digit)
+        if L.boolean('botpOCRAStepV', A.buf(bad.encode() + b'\0'), A.buf(q), len(q), self.t, st):
+            raise Viol('%s: call %d, a wrong password is accepted for |q| = %d' % (self.name, calls + 1, len(q)))
+        return (adv, calls + 1)
+
 # ------------------------------------------------------------------ bash automaton steps
 class PrgCmd(Bundle):
     """one command of the bash automaton fed in fragments: <Cmd>Start + <Cmd>Step(f)* must equal the whole command;
@@ -453,6 +506,8 @@ def bundles(tier):
         bs += [Aead(pre, 17 if q else 33, 18 if q else 34), Aead(pre, 9 if q else 17, 17 if q else 33, unwrap=True)]
     bs += [BrngCTR(70 if q else 97, bytes(32)), BrngCTR(70 if q else 97, b'\xff' * 32), BrngHMAC(70 if q else 97, 16), BrngHMAC(66, 64), BrngHMAC(66, 65), BrngHMAC(40, 0)]
     bs += [Hotp(6, b'\xff' * 7 + b'\xfe', 3), Hotp(8, bytes(8), 2 if q else 3)]
+    bs += [Ocra('OCRA-1:HOTP-HBELT-8:C-QN08-PHBELT', 2 if q else 3, True), Ocra('OCRA-1:HOTP-HBELT-6:QA10-T1M', 2 if q else 3, False),
+           Ocra('OCRA-1:HOTP-HBELT-9:QH64-S064', 2, False)]
     bs += [Sde(False, 2 if q else 3), Sde(True, 2 if q else 3), Krp(32, 2 if q else 3), Krp(24, 2), Krp(16, 2), Totp(6, 2), Totp(8, 1 if q else 2)]
     for cmd in ('Absorb', 'Squeeze', 'Encr', 'Decr'):
         for (l, d) in (((128, 1),) if q else ((128, 1), (192, 2), (256, 1))):
@@ -474,7 +529,7 @@ def search(idx_tier):
     try:
         with vf.Arena(L) as A:
             st0 = b.start(L, persist)             # the start location stays allocated (and poisoned) for the whole search
-            init = (0, 0, -1) if isinstance(b, Aead) else 0
+            init = (0, 0, -1) if isinstance(b, Aead) else ((0, 0) if isinstance(b, Ocra) else 0)
             if isinstance(b, Aead) and not b.unwrap:
                 init = (0, 0, 0)
             root = (init, st0.get())
